@@ -2,6 +2,7 @@
 //! One sub-command per property; each writes a result file for the driver.
 
 mod c05;
+mod c18;
 
 use hvcommon::args::Args;
 
@@ -9,6 +10,7 @@ fn main() {
     let args = Args::from_env();
     match args.cmd() {
         "c05" => c05::main(&args),
+        "c18" => c18::main(&args),
         other => {
             eprintln!("unknown sub-command {:?}", other);
             std::process::exit(2);
